@@ -105,7 +105,7 @@ func (e *Exec) specWrites(fn *ssa.Function, spec *FuncSpec, ws map[string]bool) 
 // modHeapsSyntactic derives heap names from `modifies` clauses using only
 // static types of the parameters.
 func (e *Exec) modHeapsSyntactic(fn *ssa.Function, spec *FuncSpec) []string {
-	env := &SpecEnv{ex: e, typeOnly: true, vars: map[string]Val{}, fn: fn}
+	env := &SpecEnv{ex: e, typeOnly: true, vars: map[string]Val{}, fn: fn, spec: spec}
 	env.bindParamsTypesOnly(fn)
 	var out []string
 	for _, c := range spec.Modifies {
@@ -476,30 +476,42 @@ func (e *Exec) loopFrameAssume(fr *frame, st, pre *State, heap, old, nw string, 
 	}
 	if e.spec != nil && e.spec.HasMod && !e.modAll && fr.fn == e.fn {
 		entryT := e.heapTerm(e.entry, heap)
-		cond := lt(app("root", "r"), e.nextRef0)
-		for _, m := range e.modset[heap] {
-			if m.all {
-				cond = and(cond, not(m.cond))
-			} else {
-				cond = and(cond, not(and(m.cond, eq("r", m.ref))))
+		keep := func(r string) string {
+			cond := lt(app("root", r), e.nextRef0)
+			for _, m := range e.modset[heap] {
+				if m.all {
+					cond = and(cond, not(m.cond))
+				} else if m.pred != nil {
+					cond = and(cond, not(and(m.cond, m.pred(r))))
+				} else {
+					cond = and(cond, not(and(m.cond, eq(r, m.ref))))
+				}
 			}
+			return cond
 		}
-		e.ctx.assume(imp(st.pc, fmt.Sprintf("(forall ((r Int)) (! (=> %s (= (select %s r) (select %s r))) :pattern ((select %s r))))", cond, nw, entryT, nw)))
+		e.frameAssume(st.pc, heap, nw, entryT, keep)
 	}
 	if fr.spec != nil {
 		if lms, ok := fr.spec.LoopMods[ord]; ok {
 			env := e.specEnv(fr, pre, nil)
-			cond := "true"
+			var hls []heapLoc
 			for _, c := range lms {
 				for _, l := range c.Locs {
 					for _, hl := range env.evalLoc(l) {
 						if hl.heap == heap {
-							cond = and(cond, not(eq("r", hl.ref)))
+							hls = append(hls, hl)
 						}
 					}
 				}
 			}
-			e.ctx.assume(imp(st.pc, fmt.Sprintf("(forall ((r Int)) (! (=> %s (= (select %s r) (select %s r))) :pattern ((select %s r))))", cond, nw, old, nw)))
+			keep := func(r string) string {
+				cond := "true"
+				for _, hl := range hls {
+					cond = and(cond, not(hl.has(r)))
+				}
+				return cond
+			}
+			e.frameAssume(st.pc, heap, nw, old, keep)
 			fr.loopModChecks[ord] = true
 		}
 	}
@@ -719,6 +731,19 @@ type heapLoc struct {
 	heap string
 	ref  string
 	all  bool // every object (used by `modifies everything of heap`)
+	pred func(r string) string // set of objects: membership predicate (pointees(...))
+	cond string                // "" or the `when` condition
+}
+
+func (l heapLoc) has(r string) string {
+	c := l.cond
+	if c == "" {
+		c = "true"
+	}
+	if l.pred != nil {
+		return and(c, l.pred(r))
+	}
+	return and(c, eq(r, l.ref))
 }
 
 // havocWrites replaces the heaps in ws by fresh versions; with a modifies
@@ -757,7 +782,11 @@ func (e *Exec) havocWrites(fr *frame, st *State, ws map[string]bool, mods []heap
 			for _, m := range mods {
 				if m.heap == name {
 					any = true
-					e.rangeStable(fr, st, name, m.ref, pos)
+					if m.pred != nil {
+						e.rangeStable(fr, st, name, "", pos)
+					} else {
+						e.rangeStable(fr, st, name, m.ref, pos)
+					}
 				}
 			}
 			if !any && !(hasMod && spec.HasMod) {
@@ -769,13 +798,16 @@ func (e *Exec) havocWrites(fr *frame, st *State, ws map[string]bool, mods []heap
 			continue
 		}
 		if hasMod && spec.HasMod {
-			cond := lt(app("root", "r"), preRef)
-			for _, m := range mods {
-				if m.heap == name {
-					cond = and(cond, not(eq("r", m.ref)))
+			keep := func(r string) string {
+				cond := lt(app("root", r), preRef)
+				for _, m := range mods {
+					if m.heap == name {
+						cond = and(cond, not(m.has(r)))
+					}
 				}
+				return cond
 			}
-			e.ctx.assume(imp(st.pc, fmt.Sprintf("(forall ((r Int)) (! (=> %s (= (select %s r) (select %s r))) :pattern ((select %s r))))", cond, nw, old, nw)))
+			e.frameAssume(st.pc, name, nw, old, keep)
 		} else if e.spec != nil && e.spec.HasMod && !e.modAll && e.heapInfos[name].kind != 'g' {
 			// callee without modifies clause writes this heap: cannot be framed
 			e.oblige(fr, st, "frame-call:"+shortName(callee), "callee "+callee+" may write "+name+" and declares no `modifies`", pos, "false")
@@ -838,8 +870,15 @@ func (e *Exec) contractCall(fr *frame, st *State, callee *ssa.Function, spec *Fu
 	// effects
 	var mods []heapLoc
 	for _, c := range spec.Modifies {
+		cond := ""
+		if c.When != nil {
+			cond = env.eval(c.When).T
+		}
 		for _, l := range c.Locs {
-			mods = append(mods, env.evalLoc(l)...)
+			for _, hl := range env.evalLoc(l) {
+				hl.cond = cond
+				mods = append(mods, hl)
+			}
 		}
 	}
 	ws := map[string]bool{}
@@ -867,7 +906,16 @@ func (e *Exec) contractCall(fr *frame, st *State, callee *ssa.Function, spec *Fu
 	// caller's frame: callee's declared locations must be inside it
 	if e.spec != nil && e.spec.HasMod && !e.modAll {
 		for _, m := range mods {
-			e.oblige(fr, st, "frame-call:"+short, "location modified by "+key+" ("+m.heap+") is inside caller's `modifies`", pos, e.inFrame(m.heap, m.ref))
+			if m.pred != nil {
+				goal := fmt.Sprintf("(forall ((r Int)) (=> %s %s))", m.has("r"), e.inFrame(m.heap, "r"))
+				e.oblige(fr, st, "frame-call:"+short, "locations modified by "+key+" ("+m.heap+", set) are inside caller's `modifies`", pos, goal)
+				continue
+			}
+			c := m.cond
+			if c == "" {
+				c = "true"
+			}
+			e.oblige(fr, st, "frame-call:"+short, "location modified by "+key+" ("+m.heap+") is inside caller's `modifies`", pos, imp(c, e.inFrame(m.heap, m.ref)))
 		}
 	}
 	e.havocWrites(fr, st, ws, mods, spec, pos, key)
